@@ -49,7 +49,7 @@ deriving Repr, Inhabited
 inductive STop
   | acts (l : List SAct)
   | wDespawn (r : Ref) | wDespawnRec (r : Ref) | wRemove (r : Ref) (ty : Nat) | wInsertRaw (r : Ref) (ty v : Nat)
-  | wSetParent (c p : Ref) | gc | poll | frameEnd
+  | wSetParent (c p : Ref) | gc | poll | frameEnd | clearTrackers
   | wSysEvent (s : Ref) (ty pid : Nat) | wBroadcast (ty pid : Nat) | wEntityEvent (r : Ref) (ty pid : Nat)
   | sigPrepare (r : Ref) | sigClone (a : Nat) | sigDrop (a : Nat) | sigThreads (a n : Nat)
 deriving Repr, Inhabited
@@ -145,7 +145,10 @@ def parseTop (toks : List String) : Option STop :=
   | ["gc"] => some .gc
   | ["poll"] => some .poll
   | ["frameend"] => some .frameEnd
-  | ["update"] => some .frameEnd          -- `App::update()`: the `Last` schedule runs the collector, then the poll
+  -- `App::update()` is written as two lines, `top update` + `top cleartrackers`: the `Last` schedule (collector, then the
+  -- poll) and the `World::clear_trackers` that ends the frame
+  | ["update"] => some .frameEnd
+  | ["cleartrackers"] => some .clearTrackers
   | ["wsysevent", s, ty, pid] => do pure (.wSysEvent (← parseRef s) (← ty.toNat?) (← pid.toNat?))
   | ["wbroadcast", ty, pid] => do pure (.wBroadcast (← ty.toNat?) (← pid.toNat?))
   | ["wentevent", r, ty, pid] => do pure (.wEntityEvent (← parseRef r) (← ty.toNat?) (← pid.toNat?))
@@ -303,6 +306,7 @@ def resolveTop (s : St) : STop → Option TopOp
   | .gc => some .gc
   | .poll => some .poll
   | .frameEnd => some .frameEnd
+  | .clearTrackers => some .clearTrackers
   | .wSysEvent r ty pid => (resolveRef s r).map (TopOp.wSysEvent · ty pid)
   | .wBroadcast ty pid => some (.wBroadcast ty pid)
   | .wEntityEvent r ty pid => (resolveRef s r).map (TopOp.wEntityEvent · ty pid)
